@@ -14,7 +14,7 @@ from typing import List
 
 from vlib import framework
 from vlib.framework import Harness
-from vlib.symx import assume
+from vlib.symx import assume, native
 
 from sqlalchemy import Column, ForeignKey, Integer, Table
 from sqlalchemy.orm import registry, relationship
@@ -487,7 +487,7 @@ def _guarded(kind, init, steps):
 def h_hist(kind: str, alpha: str, init: int, n: int, lo: int, hi: int, code: int) -> bool:
     c = pin_code(code, lo, hi)
     steps = _native(decode, kind, alpha, n, c)
-    r = _native(_guarded, kind, INITS[kind][init], steps)
+    r = native(_guarded, kind, INITS[kind][init], steps)  # plain values only: the framework's native() section
     if r is None:
         assume(False)
     return r
@@ -513,7 +513,7 @@ META = {
     ],
     "bounds": {
         "quick": {"objects": "2 parents x 3 children (many-to-many 2 x 2), all new (transient)",
-                  "history": "2 steps over the full alphabet from 3 initial configurations (many-to-many: from the empty one, and "
+                  "history": "2 steps over the full alphabet from 2-3 initial configurations (many-to-many: from the empty one, and "
                              "over the core alphabet from 4 others); 3 steps over the core alphabet from the empty configuration "
                              "(one-to-one: over the full alphabet)",
                   "full alphabet": "append, remove, insert(0|1), [0|1] = c, [0:1] / [1:] = [...], extend, pop(), pop(0), clear, "
@@ -553,7 +553,7 @@ def harnesses(tier: str) -> List[Harness]:
                 for i in range(1, ninit):
                     sl += _slices(kind, "core", i, 2)
             else:
-                for i in ((0, 2, 3) if kind != "o2o" else range(ninit)):
+                for i in ((0, 3) if kind != "o2o" else range(ninit)):
                     sl += _slices(kind, "full", i, 2)
             sl += _slices(kind, "core" if kind != "o2o" else "full", 0, 3)
         else:
